@@ -24,7 +24,8 @@ RULE = ("G-sim traces (1-2 ranks, >= 1 stream, launch delay 0 frequent so kernel
         "instant shared by a launch and a kernel start on one stream. Distinct = distinct canonical case JSON.")
 ASSUMPTIONS = [
     "fewer than two ProfilerStep annotations (no trimming)",
-    "no activity starts before its launch call (by construction), so 'never negative' applies to every row",
+    "'never negative' is asserted for the streams on which no activity starts before its launch call; one launch in five is "
+    "stamped 1-2 us after its activity (clock skew), and on those streams negative values are expected",
     "launch calls = the runtime launch names of hv/gen/vocab.py (kernel, memcpy, memset launches)",
     "bandwidth sums compared with 1e-9 relative tolerance",
 ]
@@ -85,6 +86,7 @@ def check(case: Dict[str, Any]) -> CaseInfo:
             by_id = {r.id: r for r in rows}
             # ---------------- queue length ----------------
             mq = model_queue(rows)
+            lk_all = links(rows)
             if not mq:
                 require(rank not in q, "queue:series_without_pairs", lambda: q[rank].to_string())
             else:
@@ -99,6 +101,10 @@ def check(case: Dict[str, Any]) -> CaseInfo:
                     require(sorted(ids) == sorted(e[0] for e in evs), "queue:rows_are_linked_events",
                             lambda: f"stream {stream}: rows {sorted(ids)} vs events {sorted(e[0] for e in evs)}")
                     sign = {e[0]: e[2] for e in evs}
+                    # "never negative" is claimed only when no activity of the stream starts before its launch call
+                    early_on_stream = any(by_id[e[0]].ts < by_id[lk_all[e[0]]].ts for e in evs if e[2] < 0)
+                    if early_on_stream:
+                        classes.append("activity_before_its_launch")
                     prev_ts, val = None, 0
                     vals = []
                     for i, ts, ql in zip(ids, sub["ts"], sub["queue_length"]):
@@ -107,7 +113,10 @@ def check(case: Dict[str, Any]) -> CaseInfo:
                         require(prev_ts is None or ts >= prev_ts, "queue:time_order", lambda: f"stream {stream}: {list(sub['ts'])}")
                         val += sign[i]
                         require(ql == val, "queue:step_by_row", lambda: f"stream {stream} event {i}: value {ql}, expected {val}; rows\n{sub.to_string()}")
-                        require(ql >= 0, "queue:never_negative", lambda: f"stream {stream}\n{sub.to_string()}")
+                        if not early_on_stream:
+                            require(ql >= 0, "queue:never_negative", lambda: f"stream {stream}\n{sub.to_string()}")
+                        elif ql < 0:
+                            classes.append("negative_queue_length")
                         prev_ts = ts
                         vals.append((ts, ql))
                         series_q[rank].append((ts + min_ts, stream, ql))
@@ -202,7 +211,7 @@ def check(case: Dict[str, Any]) -> CaseInfo:
 
 @st.composite
 def c14_case(draw):
-    o = Opts(steps=[0, 1], w_launch=8, w_sync=1, w_op=3, max_top=5, streams=3, second_thread=False, memcpy_weight=6,
+    o = Opts(steps=[0, 1], w_launch=8, w_sync=1, w_op=3, max_top=5, streams=3, second_thread=False, memcpy_weight=6, early_kernels=True,
              kdurs=[1, 2, 4, 7, 12, 20], memcpy_names=[n for n in vocab.MEMCPY_KERNELS if "HtoD" in n] + vocab.MEMCPY_KERNELS[:1])
     case = draw(sim_case(o, max_ranks=2))
     all_ranks = [r["rank"] for r in case["ranks"]]
@@ -224,5 +233,5 @@ def view(case):
 def campaigns(tier: str) -> List[Campaign]:
     return [Campaign("counters", c14_case(), check, quick=400, thorough=20000, quick_shards=8,
                      required_classes={"launch_and_start_same_instant": 0.15, "multi_stream": 0.18, "zero_length_copy": 0.03,
-                                       "counter_file": 0.5, "shared_instant": 0.3, "multi_copy_type": 0.05},
+                                       "counter_file": 0.5, "shared_instant": 0.3, "multi_copy_type": 0.05, "negative_queue_length": 0.05},
                      sample_view=view)]
